@@ -125,9 +125,15 @@ def run(ctx):
                 ok = False
                 for a, p in atoms:
                     s = a.strip(casts=True)
-                    if s.k == 'BinaryOperator' and s.op == '>=' and p and s.children[1].strip(casts=True).value == 0 and \
-                            any(x.k == 'DeclRefExpr' and x.declid == idx.declid for x in s.children[0].walk()):
-                        ok = any(c.callee is not None and c.callee.get('n') == 'get_rlm_idx' for c in q.calls_in(s.children[0]))
+                    nonneg = s.k == 'BinaryOperator' and ((s.op == '>=' and p and s.children[1].strip(casts=True).value == 0) or
+                                                          (s.op == '>' and p and s.children[1].strip(casts=True).value == -1) or
+                                                          (s.op == '<' and not p and s.children[1].strip(casts=True).value == 0))
+                    if nonneg and any(x.k == 'DeclRefExpr' and x.declid == idx.declid for x in s.children[0].walk()):
+                        # the index tested is the one used, and every definition of it that reaches the subscript is a fresh get_rlm_idx() result
+                        # (assigned inside the test, or the initialiser of a named local; a `: -1` arm is excluded by the test itself)
+                        defs_ = [(dn, kind, val) for (dn, kind, val) in q.reaching_defs(f, idx.declid, sbn) if kind != 'param']
+                        ok = bool(defs_) and all(val is not None and any(c.callee is not None and c.callee.get('n') == 'get_rlm_idx' for c in q.calls_in(val))
+                                                 for (dn, kind, val) in defs_)
                 ctx.check(ok, 'R10.4', f.qp + '#descriptions-index@%d' % sbn.line, sbn.loc, 'the description array is indexed only with an index >= 0 freshly obtained from get_rlm_idx')
     ctx.need(n4 >= 2, 'fewer than 2 description lookups found in the printers')
     # ---------------- R10.3 generated domains
